@@ -17,6 +17,7 @@ import PdbModel.DriverC14
 import PdbModel.DriverC16
 import PdbModel.DriverPdb
 import PdbModel.DriverCif
+import PdbModel.DriverC15
 namespace PdbModel
 
 def parseLevels (t : String) : Option (List ErrorLevel) :=
@@ -57,6 +58,7 @@ def handle (line : String) : String :=
   | "c13" :: rest => (handleC13 rest).getD "BAD-REQUEST"
   | "c14" :: rest => (handleC14 rest).getD "BAD-REQUEST"
   | "c16" :: rest => (handleC16 rest).getD "BAD-REQUEST"
+  | "c15" :: rest => (handleC15 rest).getD "BAD-REQUEST"
   | "cif" :: rest => (handleCif rest).getD "BAD-REQUEST"
   | "pdb" :: rest => ((handlePdb rest).orElse fun _ => handlePdbWrite rest).getD "BAD-REQUEST"
   | _ => "BAD-REQUEST"
